@@ -2,7 +2,7 @@
    Only the property theorems, closed by `exact`, with their assumptions and non-vacuity examples. *)
 From Coq Require Import List NArith ZArith Bool Ring Reals Lra.
 From QI Require Import Base.ListAux Base.Scalar Model.Outcome Model.Validate Model.Gates Model.OpSeq Model.Qft Spec.Embed
-  Proofs.C04 Proofs.C16a Proofs.C16exp Proofs.C16b Proofs.C16c Run.RInst Run.ZInst.
+  Proofs.C04 Proofs.C16a Proofs.C16exp Proofs.C16b Proofs.C16c Proofs.C16d Run.RInst Run.ZInst.
 Import ListNotations.
 Open Scope N_scope.
 
@@ -31,7 +31,6 @@ Proof. exact @qft_after_iqft. Qed.
 Print Assumptions C16_qft_inverts_iqft.
 
 (* the same over the reals with the actual angles pi / 2^k *)
-Definition cp_real (k : nat) : R * R := (cos (PI / 2 ^ k), sin (PI / 2 ^ k))%R.
 Theorem C16_inverse_real :
   forall par n qs (v : list (C (T:=R))), qubits_ok n qs -> length v = N.to_nat (2 ^ n) ->
   run_ops rops par (qft_ops rops cp_real qs ++ iqft_ops rops cp_real qs) (mkState n v) = Ok (mkState n v) /\
@@ -67,15 +66,22 @@ Print Assumptions C16_qft_is_dft.
 (* the hypotheses about cp hold for the actual angles over the reals *)
 Theorem C16_real_roots :
   cp_real 0%nat = cneg rops (c1 rops) /\ (forall k, cmul rops (cp_real (S k)) (cp_real (S k)) = cp_real k).
-Proof.
-  split.
-  - unfold cp_real, cneg, c1. cbn [fst snd rops sopp s1 s0 pow]. replace (PI / 1)%R with PI by field. rewrite cos_PI, sin_PI. f_equal; lra.
-  - intros k. unfold cp_real, cmul. cbn [fst snd rops sadd smul ssub].
-    replace (PI / 2 ^ k)%R with (2 * (PI / 2 ^ S k))%R.
-    2:{ cbn [pow]. field. apply pow_nonzero. lra. }
-    rewrite cos_2a, sin_2a. f_equal; ring.
-Qed.
+Proof. exact cp_real_facts. Qed.
 Print Assumptions C16_real_roots.
+
+(* ... so that over the reals, with cp k = e^{i pi / 2^k} (the angles the subroutine builds), the entries are the textbook ones:
+   amplitude(x) = (1/sqrt 2)^m * ( cos(2 pi e / 2^m) + i sin(2 pi e / 2^m) ),  e = J(a on qs) * J(x on qs)  (de Moivre) *)
+Theorem C16_qft_is_dft_real :
+  forall par n qs a, qubits_ok n qs -> (1 <= List.length qs)%nat -> a < 2 ^ n ->
+  exists v', run_ops rops par (qft_ops rops cp_real qs) (mkState n (basis_vec rops n a)) = Ok (mkState n v') /\ List.length v' = N.to_nat (2 ^ n) /\
+    forall x, x < 2 ^ n ->
+      get (c0 rops) v' x =
+        if agree_off qs x a
+        then let m := List.length qs in let e := INR (N.to_nat (J (bitsof a qs) * J (bitsof x qs))) in
+             ((/ sqrt 2) ^ m * cos (2 * PI * e / 2 ^ m), (/ sqrt 2) ^ m * sin (2 * PI * e / 2 ^ m))%R
+        else (0, 0)%R.
+Proof. exact qft_basis_is_dft_real. Qed.
+Print Assumptions C16_qft_is_dft_real.
 
 (* the gate lists themselves: iqft is qft's stages reversed with every angle negated, the swaps in the same order *)
 Theorem C16_iqft_gate_list :
